@@ -44,7 +44,9 @@ Theorem C05_revoke : forall r c rg p g,
 Proof. exact revoke_statement. Qed.
 Print Assumptions C05_revoke.
 
+(* [names_other p]: the request names the second client Y (see C05_acts_for_self) *)
 Theorem C05_device_authz : forall r c rg p g,
+  names_other p = false ->
   success (model (mkInput r EDeviceAuthz c rg p g)) = true ->
   r_known rg = true /\ identifies p = true /\ registered rg GDevice = true.
 Proof. exact device_authz_statement. Qed.
@@ -52,17 +54,27 @@ Print Assumptions C05_device_authz.
 
 (* Every answer other than 2xx is a refusal: status >= 400, no token or device code, no
    active:true, nothing revoked, and on the token endpoint an OAuth error document. *)
-Theorem C05_refusal_shape : forall i s e tok act,
-  model i = ORes s e tok act -> s <> S2 ->
-  (s = S4 \/ s = S5) /\ tok = false /\ act = false /\
+Theorem C05_refusal_shape : forall i s e tok act w,
+  model i = ORes s e tok act w -> s <> S2 ->
+  (s = S4 \/ s = S5) /\ tok = false /\ act = false /\ w = WNone /\
   (i_endpoint i = EToken -> oauth_code e = true).
 Proof. exact refusal_statement. Qed.
 Print Assumptions C05_refusal_shape.
 
 (* The handlers' guard prefixes always answer (no panic, one write). *)
-Theorem C05_total : forall i, exists s e tok act, model i = ORes s e tok act.
+Theorem C05_total : forall i, exists s e tok act w, model i = ORes s e tok act w.
 Proof. exact model_total. Qed.
 Print Assumptions C05_total.
+
+(* Cross-client requests (a valid credential of X together with the id of a second,
+   confidential client Y, and Y's code / refresh token / device code / token): nothing is ever
+   issued, revoked or disclosed in Y's name, except a device code when the request names Y -
+   which needs no authentication. [w] = the client the answer acted for. *)
+Theorem C05_acts_for_self : forall i s e tok act w,
+  model i = ORes s e tok act w -> w = WOther ->
+  i_endpoint i = EDeviceAuthz /\ names_other (i_pres i) = true.
+Proof. exact acts_for_self. Qed.
+Print Assumptions C05_acts_for_self.
 
 (* The property predicate evaluated by the correspondence run holds of the model on every
    input outside the gap, and fails inside it. *)
@@ -76,7 +88,7 @@ Print Assumptions C05_spec_model_refuted.
 
 (* The refusals the property text names. *)
 Theorem C05_unknown_client_refused : forall r e c rg p g,
-  r_known rg = false -> success (model (mkInput r e c rg p g)) = false.
+  r_known rg = false -> names_other p = false -> success (model (mkInput r e c rg p g)) = false.
 Proof. exact unknown_client_refused. Qed.
 Print Assumptions C05_unknown_client_refused.
 
